@@ -30,6 +30,22 @@ FLOORS = {'R9': 1, 'R8': 1, 'R1': 8, 'R2': 2, 'R3': 6, 'R4': 9, 'R5': 2, 'R6': 7
 PAT = 'self._answer_patterns'
 
 
+def _receiver(g, node, call):
+    """the object a method is called on, read through a local that merely names it (`t = table[k]; t.cancel()`)"""
+    return g.resolve_local(node, call.func.value)
+
+
+def _runs_before(g, node, call, later):
+    """``node`` (a call on some object) runs on every path to ``later``, or is skipped only when that object is None / false"""
+    if g.dominates(node, later):
+        return True
+    allowed = set()
+    for r in {norm(call.func.value), norm(_receiver(g, node, call))}:
+        allowed |= {fact_key('%s is None' % r, False), fact_key(r, True)}
+    extra = g.fact_keys_at(node) - g.fact_keys_at(later)
+    return bool(extra) and extra <= allowed and g.path_avoiding(node, [later]) is not None
+
+
 def check(ctx):
     m = ctx.model
     sp = m.func(CF, 'Crazyflie.send_packet')
@@ -138,11 +154,11 @@ def check(ctx):
     it = norm(lp.ast.iter)
     ctx.inst('R3', ca, 'candidates-snapshot', it in ('list(%s.keys())' % PAT, 'list(%s)' % PAT, 'tuple(%s)' % PAT, 'tuple(%s.keys())' % PAT),
              'candidates must be a snapshot of all pending patterns; iterates %s' % it)
-    cancels = ga.find(lambda n: method_call(n, 'cancel') and norm(n.func.value).startswith(PAT + '['))
+    cancels = [(n, c) for n, c in ga.find(lambda n: method_call(n, 'cancel')) if norm(_receiver(ga, n, c)).startswith(PAT + '[')]
     dels = [n for n in ga.nodes if n.kind == 'stmt' and isinstance(n.ast, ast.Delete) and norm(n.ast.targets[0]).startswith(PAT + '[')]
     ctx.need(len(dels) == 1, '_check_for_answers: delete of the matched entry not found')
     lm = norm(dels[0].ast.targets[0].slice)
-    okc = len(cancels) == 1 and norm(cancels[0][1].func.value.slice) == lm and ga.dominates(cancels[0][0], dels[0])
+    okc = len(cancels) == 1 and norm(_receiver(ga, *cancels[0]).slice) == lm and _runs_before(ga, cancels[0][0], cancels[0][1], dels[0])
     ctx.inst('R3', ca, 'cancel-and-delete-same-entry', okc, 'the deleted entry %s must have been cancelled first' % lm)
     ctx.inst('R3', ca, 'only-on-match', fact_key('len(%s) > 0' % lm, True) in ga.fact_keys_at(dels[0]),
              'cancel/delete only when a match was found (len(%s) > 0)' % lm)
@@ -188,10 +204,10 @@ def check(ctx):
             ctx.need(sn, 'statement not in CFG')
             if site[0] == 'del':
                 k = norm(st.targets[0].slice)
-                cs = [n for n, c in gf.find(lambda q: method_call(q, 'cancel') and norm(q.func.value) == '%s[%s]' % (PAT, k)) if gf.dominates(n, sn[0])]
+                cs = [n for n, c in gf.find(lambda q: method_call(q, 'cancel')) if norm(_receiver(gf, n, c)) == '%s[%s]' % (PAT, k) and _runs_before(gf, n, c, sn[0])]
                 ctx.inst('R4', f, 'del-cancels', len(cs) >= 1, 'deleting a pending pattern must cancel its timer first')
             else:
-                loops = [n for n in gf.nodes if n.kind == 'for' and norm(n.ast.iter) in ('%s.values()' % PAT, 'list(%s.values())' % PAT)
+                loops = [n for n in gf.nodes if n.kind == 'for' and norm(gf.resolve_local(n, n.ast.iter)) in ('%s.values()' % PAT, 'list(%s.values())' % PAT, 'tuple(%s.values())' % PAT)
                          and gf.dominates(n, sn[0])]
                 okc = False
                 for l in loops:
